@@ -4,9 +4,10 @@ the instructions for an independent mutation sub-agent (property text only, noth
 to /tmp/mutprompt-<pid>.txt."""
 import json, subprocess, sys, os
 pid, n, pkgs = sys.argv[1], int(sys.argv[2]), sys.argv[3]
+rnd = os.environ.get("MUT_ROUND", "")   # e.g. "2": second round, told what round 1 already did
 root = os.path.dirname(os.path.dirname(os.path.abspath(__file__)))
 p = {json.loads(l)['id']: json.loads(l) for l in open(os.path.join(root, 'properties.jsonl'))}[pid]
-wt = '/tmp/mut-' + pid
+wt = '/tmp/mut%s-%s' % (rnd, pid)
 if not os.path.exists(wt):
     subprocess.check_call(['git', '-C', '/repo', 'worktree', 'add', '-q', '--detach', wt, 'HEAD'])
 T = '''You are helping to evaluate a verification effort by producing realistic, subtle BUGS in a Go repository. You have your own scratch git worktree of the repository rogpeppe/go-internal at {wt} (work only there; do not touch /repo or /verif; do not look at /verif at all). Every shell call needs: export GOFLAGS=-mod=mod GOPROXY=off GOSUMDB=off GOTOOLCHAIN=local (there is no network).
@@ -25,6 +26,13 @@ For each change i (1..{n}) deliver, under {wt}/_mut/m<i>/ :
  - a demonstration: a small Go test file or program (say demo_test.go or demo/main.go placed where it can be run from the worktree root, plus the exact command to run it) that FAILS (or prints a wrong result and exits non-zero) with the change applied and PASSES on the unchanged code; keep it self-contained and deterministic (retry loops are fine for schedule-dependent bugs);
  - meta.json : {{"property": "{pid}", "summary": "...what the change does...", "needs": "...what is needed for it to manifest...", "demo_cmd": "...", "demo_files": ["path relative to worktree root", ...], "tests_run": "...commands you ran and their result..."}}. Copy the demo files into _mut/m<i>/ as well.
 Verify yourself, for every change: clean tree → demo passes; apply patch → build OK, existing tests pass, demo fails; then revert (`git checkout -- . && git clean -fdq -e _mut`). Leave the worktree clean except for _mut/. Final answer: a short list of the changes with one line each.'''
-open('/tmp/mutprompt-%s.txt' % pid, 'w').write(T.format(wt=wt, title=p['title'], statement=p['statement'],
+import glob
+tried = []
+for m in sorted(glob.glob(os.path.join(root, 'seeded', pid + '-*', 'meta.json'))):
+    d = json.load(open(m))
+    tried.append('- ' + ' '.join(str(d.get('summary')).split())[:400])
+if rnd and tried:
+    T += "\n\nChanges of this kind have ALREADY been produced in an earlier round — do not repeat them or close variants; look for different mechanisms, different functions among the anchors, different parts of the property statement (also the less obvious clauses), and subtler triggers:\n" + "\n".join(tried).replace('{', '{{').replace('}', '}}')
+open('/tmp/mutprompt%s-%s.txt' % (rnd, pid), 'w').write(T.format(wt=wt, title=p['title'], statement=p['statement'],
      quant=p['quantifier']['text'], files=', '.join(p['anchors']['files']), n=n, pid=pid, pkgs=pkgs))
-print('/tmp/mutprompt-%s.txt' % pid)
+print('/tmp/mutprompt%s-%s.txt' % (rnd, pid))
